@@ -214,7 +214,7 @@ func (c *Ctx) applyContractSig(st *State, x *ast.CallExpr, pk *Pkg, sig *types.S
 				row := c.declare("mrow", arraySort(c.idxSort(), t.leaf))
 				c.rangeAxiomRow(row, t.fam)
 				lo, hi := *t.lo, *t.hi
-				st.assume(c, c.forallIdx(func(i Term) Term {
+				c.qfact(st, c.forallIdx(func(i Term) Term {
 					return Implies(Or(c.ilt(i, lo), c.ile(hi, i)), Eq(Select(row, i), Select(old, i)))
 				}))
 				st.heaps[t.fam] = c.name(Store(h, t.ref, row), "H_"+t.fam)
@@ -258,7 +258,13 @@ func (c *Ctx) applyContractSig(st *State, x *ast.CallExpr, pk *Pkg, sig *types.S
 	if len(rvals) == 1 {
 		post.vars["result"] = rvals[0]
 	}
-	for _, cl := range fc.Ensures {
+	for _, cl := range fc.TrustedEnsures {
+		c.trusted[fmt.Sprintf("trusted postcondition of %s.%s: %s", fc.Pkg, fc.Key, cl.Text)] = true
+	}
+	for _, cl := range append(append([]*Clause{}, fc.Ensures...), fc.TrustedEnsures...) {
+		if cl.Thorough && c.tier != "thorough" {
+			continue // not proved in this tier, so not assumed either
+		}
 		t := post.boolTerm(cl.Expr)
 		st.assume(c, And(append(post.facts, t)...))
 		post.facts = nil
